@@ -339,6 +339,32 @@ func suitePathGuard(c *Ctx) error {
 		}
 	}
 
+	// ---- a working directory that has been unlinked: the lexical absolute path cannot be formed, the
+	// kernel still resolves relative names from the stale directory; climbing into a protected
+	// directory from there must not pass the guard (a refusal or any other error is fine) ----
+	{
+		gone := filepath.Join(root, "gone", "deep")
+		if err := os.MkdirAll(gone, 0o755); err == nil && os.Chdir(gone) == nil {
+			os.RemoveAll(filepath.Join(root, "gone"))
+			for _, d := range protectedDirs {
+				for _, ro := range []bool{false, true} {
+					rel := strings.Repeat("../", 14) + d[1:] + "/" + missing
+					ps, err := pebbledb.NewPebbleScanner(rel, pebbledb.PebbleScannerOptions{ReadOnly: ro})
+					if ps != nil {
+						ps.Close()
+					}
+					c.Res.Evaluations++
+					c.Count("unlinked_cwd_spellings")
+					if errors.Is(err, pebbledb.ErrVerifGuardPassed) {
+						c.Violate("C20", "C20/not-refused:unlinked-cwd", fmt.Sprintf("relative path %q from a working directory that was removed (ro=%v) reaches %s/%s but passes the guard", rel, ro, d, missing),
+							map[string]interface{}{"cwd": gone + " (removed after chdir)", "path": rel, "read_only": ro})
+					}
+				}
+			}
+			os.Chdir("/")
+		}
+	}
+
 	// ---- the location that is OPENED is the location that was CHECKED ----
 	// Real opens (guard-only off) on harmless spellings under the scratch directory.  The guard reasons
 	// about the physical location of the path; the database files must appear exactly there.  A
